@@ -177,51 +177,73 @@ def job_clock(asc, ops, n1, n2):
     dt = 1 / P['sr'].t
     ts_, dl = Sym(z3.Real('t_set')), Sym(z3.Real('delta'))
     tag = f"C10:clock:{(asc, ops, n1, n2)}"
-    with volt_patches(proxy=proxy()):
+    t = P['t0'].t + RV(n1) * dt
+    draws = n1
+    for op in ops:
+        if op == 'set':
+            t = ts_.t
+        elif op == 'add':
+            t = t + dl.t
+        elif op.startswith('update_noise'):
+            draws += n2 if op.endswith('same') else n2 + 1
+
+    def run():
         s = mk_stream(P, asc, 'real')
         a = list(s.get_samples(n1))
-        t = P['t0'].t + RV(n1) * dt
-        draws = n1
         start_flags = []
         for op in ops:
             if op == 'set':
                 s.set_time(ts_)
-                t = ts_.t
             elif op == 'add':
                 s.add_time(dl)
-                t = t + dl.t
             elif op == 'reset':
                 s.add_time(0)
             elif op.startswith('update_noise'):
-                m = n2 if op.endswith('same') else n2 + 1
-                s.update_noise(stats_calc_num_samples=m)
-                draws += m
+                s.update_noise(stats_calc_num_samples=n2 if op.endswith('same') else n2 + 1)
             start_flags.append((op, s.start_obs))
         clk = s.t_start
         b = list(s.get_samples(n2))
-        end = s.t_start
+        return a, b, clk, s.t_start, start_flags
+    # (an implementation may branch on the requested instant, e.g. treat 0 specially: each branch is its own path)
+    with volt_patches(proxy=proxy()):
+        leaves = core.explore(run, pre, cap=16)
     pl = dict(fn='stream', asc=asc, custom='real', comp=[n1, n2], ops=list(ops))
-    pairs = [((lift(clk), RV(0)), (t, RV(0))), ((lift(end), RV(0)), (t + RV(n2) * dt, RV(0)))]
-    for k in range(n1):
-        pairs.append((cparts(a[k]), spec_sample(P, asc, 'real', P['t0'].t + RV(k) * dt, k)))
-    if len(b) != n2:
-        recs.append(q(tag + ':lengths', 'sat'))
-        recs.append(cex('C10:length', 'request returned a wrong number of samples', pl, name=tag + ':lengths'))
-        return recs
-    for k in range(n2):
-        pairs.append((cparts(b[k]), spec_sample(P, asc, 'real', t + RV(k) * dt, draws + k)))
-    decide(tag, pairs, recs, f"C10:clock:{'+'.join(ops)}", f'after {ops} the next request is not evaluated at the requested instant', pl, pre)
-    # start_obs bookkeeping: set/add/reset mark the start of an observation; update_noise restores the flag
-    flag = False
-    okflags = True
-    for op, f in start_flags:
-        if op in ('set', 'add', 'reset'):
-            flag = True
-        okflags &= (bool(f) == flag)
-    r, _ = core.check([RV(int(okflags)) != 1])
-    recs.append(q(tag + ':start_obs', r, trivial=True))
-    if not okflags:
-        recs.append(cex('C10:start_obs', f'start_obs flag wrong after {ops}', pl, name=tag + ':start_obs'))
+    conds = []
+    for li, leaf in enumerate(leaves):
+        conds.append(leaf.cond())
+        base = pre + leaf.pc + leaf.side
+        name = tag + (f":leaf{li}" if len(leaves) > 1 else '')
+        if leaf.kind == 'exc':
+            r, m = core.check(base, timeout_ms=30000)
+            recs.append(q(name + ':noexc', r, detail=repr(leaf.value)))
+            if r == 'sat':
+                recs.append(cex('C10:clock:raise', f'clock operations {ops} raised {leaf.value!r}', dict(pl, vals=core.model_vals(m, ('t0', 'sr', 't_set', 'delta'))), name=name + ':noexc'))
+            continue
+        a, b, clk, end, start_flags = leaf.value
+        pairs = [((lift(clk), RV(0)), (t, RV(0))), ((lift(end), RV(0)), (t + RV(n2) * dt, RV(0)))]
+        for k in range(n1):
+            pairs.append((cparts(a[k]), spec_sample(P, asc, 'real', P['t0'].t + RV(k) * dt, k)))
+        if len(b) != n2:
+            recs.append(q(name + ':lengths', 'sat'))
+            recs.append(cex('C10:length', 'request returned a wrong number of samples', pl, name=name + ':lengths'))
+            continue
+        for k in range(n2):
+            pairs.append((cparts(b[k]), spec_sample(P, asc, 'real', t + RV(k) * dt, draws + k)))
+        decide(name, pairs, recs, f"C10:clock:{'+'.join(ops)}", f'after {ops} the next request is not evaluated at the requested instant', pl, base)
+        # start_obs bookkeeping: set/add/reset mark the start of an observation; update_noise restores the flag
+        flag = False
+        okflags = True
+        for op, f in start_flags:
+            if op in ('set', 'add', 'reset'):
+                flag = True
+            okflags &= (bool(f) == flag)
+        r, _ = core.check([RV(int(okflags)) != 1])
+        recs.append(q(name + ':start_obs', r, trivial=True))
+        if not okflags:
+            recs.append(cex('C10:start_obs', f'start_obs flag wrong after {ops}', pl, name=name + ':start_obs'))
+    if len(leaves) > 1:
+        r, _ = core.check(pre + [z3.Not(z3.Or(*conds))], timeout_ms=30000)
+        recs.append(q(tag + ':split-complete', r, leaves=len(leaves)))
     return recs
 
 
@@ -491,6 +513,10 @@ def replay_stream(p):
     if not bad and v:
         bad, msg = _replay_stream(p, v)
         msg = f"with the solver's instants {v}: {msg}"
+    if not bad and p.get('ops'):
+        # boundary instants: a rewind to exactly 0, a zero advance
+        bad, msg = _replay_stream(p, dict(t_set=0.0, delta=0.0))
+        msg = f"with set_time(0) / add_time(0): {msg}"
     return bad, msg
 
 
